@@ -50,4 +50,32 @@ MUTANTS = [
         if returnSeqDeltaMax:""", note="general regime records the last candidate's permutant, not the best one"),
     m("dmax-permutant-H-positive", ["C03"], SEQ, 'posRes = [res for res in parentSeqObj.seq if res in ("R", "K")]', 'posRes = [res for res in parentSeqObj.seq if res in ("R", "K", "H")]'),
     m("dmax-midneuts-short", ["C03"], SEQ, "            for midNeuts in range(0, nneuts + 1):", "            for midNeuts in range(0, nneuts):"),
+    # ---- C05
+    m("delta-blob-loop-from-1", ["C05", "C02"], SEQ, "        for i in range(0, nblobs):\n\n            # get the blob charge pattern list", "        for i in range(1, nblobs):\n\n            # get the blob charge pattern list"),
+    m("scd-m-plus-n", ["C05", "C07"], SEQ, "np.power((m-n),0.5)", "np.power((m-n),0.5)*(1+0.01*(m+n))"),
+    m("dmax-regime4-start-le-mid", ["C05", "C03"], SEQ, "                for startNeuts in range(0, nneuts - midNeuts + 1):", "                for startNeuts in range(0, min(midNeuts, nneuts - midNeuts) + 1):"),
+    m("omega-without-P", ["C05", "C06"], SEQ, "            if res == 'P' or res =='E' or res =='D' or res =='K' or res =='R': \n                newseq=newseq+'E'", "            if res =='E' or res =='D' or res =='K' or res =='R': \n                newseq=newseq+'E'"),
+    m("dmax-regime3-end-lt-4", ["C05", "C03"], SEQ, "                for endNeuts in range(0, 7):", "                for endNeuts in range(0, 4):", note="asymmetric family: inversion changes delta-max for compositions maximised at (0,4)"),
+    # ---- C04
+    m("kd-cys", ["C04"], AAS, "             'CYS': 2.5,", "             'CYS': 2.6,"),
+    m("kd-arg", ["C04"], AAS, "             'ARG': -4.5}", "             'ARG': -4.4}"),
+    m("ww-trp", ["C04"], AAS, "            'TRP':  1.85,", "            'TRP':  1.58,"),
+    m("ppii-creamer-trp", ["C04"], AAS, "             'TRP': 0.58,\n             'TYR': 0.58,\n             'PRO': 0.67,", "             'TRP': 0.85,\n             'TYR': 0.58,\n             'PRO': 0.67,"),
+    m("mw-cys", ["C04"], AAS, "             'C': 121.2,", "             'C': 121.1,"),
+    m("mw-water-18.02", ["C04"], SEQ, "total = total - (18.0 * ( len(self.seq)-1 ))", "total = total - (18.02 * ( len(self.seq)-1 ))"),
+    m("disorder-drop-H", ["C04"], SEQ, "D = ['T', 'A', 'G', 'R', 'D', 'H', 'Q', 'K', 'S', 'E', 'P']", "D = ['T', 'A', 'G', 'R', 'D', 'Q', 'K', 'S', 'E', 'P']"),
+    m("expanding-drop-P", ["C04"], SEQ, "            return (self.countPos() + self.countNeg() + self.seq.count('P')) / (self.len + 0.0)", "            return (self.countPos() + self.countNeg()) / (self.len + 0.0)"),
+    m("countneut-ge", ["C04"], SEQ, "return len(np.where(self.chargePattern == 0)[0])", "return len(np.where(self.chargePattern >= 0)[0])"),
+    m("uversky-div-10", ["C04"], AAS, "        uversky[i] = shifted[i]/9.0", "        uversky[i] = shifted[i]/10.0"),
+    # ---- C06
+    m("omega-seq-XO-swapped", ["C06"], SEQ, "                newseq=newseq+'X'\n            else:\n                newseq=newseq+'O'", "                newseq=newseq+'O'\n            else:\n                newseq=newseq+'X'"),
+    m("parse-group-no-upper", ["C06"], SEQ, "localgrp = set([x.upper() for x in localgrp])", "localgrp = set([x for x in localgrp if x.upper()])"),
+    m("kappaX-two-group-rest-K", ["C06"], SEQ, "                else:\n                    newseq=newseq+'G'", "                else:\n                    newseq=newseq+'K'"),
+    m("parse-group-no-validation", ["C06"], SEQ, "            if res not in aminoacids.TWENTY_AAs:\n                raise SequenceException(\"ERROR: Found non-natural", "            if False:\n                raise SequenceException(\"ERROR: Found non-natural"),
+    m("kappaX-grp2-ignored-when-small", ["C06"], SEQ, "        if grp2:\n            grp2 = self.__parse_group(grp2)", "        if grp2 and len(grp2) > 1:\n            grp2 = self.__parse_group(grp2)\n        elif grp2:\n            grp2 = self.__parse_group(grp2) if len(self.seq) < 25 else None"),
+    # ---- C08
+    m("region-2-strict", ["C08"], SEQ, "elif(fcr >= .25 and fcr <= .35):", "elif(fcr >= .25 and fcr < .35):"),
+    m("region-3-le", ["C08"], SEQ, "elif(fcr > .35 and abs(ncpr) < 0.35):", "elif(fcr > .35 and abs(ncpr) <= 0.35):"),
+    m("region-4-5-swapped", ["C08"], SEQ, "                    \"Algorithm bug when coping with phase plot regions\")\n            return 5", "                    \"Algorithm bug when coping with phase plot regions\")\n            return 4"),
+    m("region-fcr-.26", ["C08"], SEQ, "        if(fcr < .25):\n            return 1", "        if(fcr < .26):\n            return 1"),
 ]
